@@ -10,6 +10,7 @@ CONSTANTS
   MaxClock = 3
   MaxAdmits = 2
   AdmitSub = 3
+  MinimalProofs = TRUE
   EmitCases = TRUE
 INIT Init
 NEXT Next
